@@ -63,7 +63,7 @@ func c10Lead(rng *h.Rng, cl c10Class, digits bool) string {
 		set = c10LeadDigits
 	}
 	switch cl {
-	case clIdent:
+	case clIdent, clIdentEdge:
 		if digits {
 			return h.Pick(rng, []string{"0", "9", "00", "1e9"})
 		}
@@ -103,11 +103,23 @@ const (
 	clHex                     // hex digits
 	clNoBrace                 // any byte but '{' (render-diff type id part)
 	clNoColon                 // any byte but ':' and '{'
+	clIdentEdge               // identifier characters plus a few near-identifier ones (\ . - : $): what a loosened lexer class
+	// would plausibly admit into a name — the pinned lexers refuse such names (the level is Loose), a changed one must not let
+	// them alter a literal (seeded C10-5)
 )
 
 func c10Mid(rng *h.Rng, cl c10Class) string {
 	var b strings.Builder
 	switch cl {
+	case clIdentEdge:
+		for i, n := 0, rng.Range(1, 6); i < n; i++ {
+			b.WriteByte("abcXYZ019_"[rng.Intn(10)])
+		}
+		b.WriteString(h.Pick(rng, []string{"\\", ".", "-", ":", "$", "\\\\", ".\\"}))
+		if rng.Chance(50) {
+			b.WriteByte("abcXYZ019_"[rng.Intn(10)])
+		}
+		return b.String()
 	case clIdent:
 		for i, n := 0, rng.Range(1, 10); i < n; i++ {
 			b.WriteByte("abcXYZ019_"[rng.Intn(10)])
